@@ -727,18 +727,60 @@ def strip_cont(s):
     return s.replace("\\\n", "")
 
 
-def analyse(parser, text, cursor):
+class _Hang(BaseException):
+    pass
+
+
+def _on_vtalrm(signum, frame):
+    raise _Hang()
+
+
+def _arm(seconds):
+    """CPU-time (ITIMER_VIRTUAL) bound: independent of machine load and of libFuzzer's own SIGALRM."""
+    import signal
+
+    if not _PB.get("armed"):
+        signal.signal(signal.SIGVTALRM, _on_vtalrm)
+        _PB["armed"] = True
+    signal.setitimer(signal.ITIMER_VIRTUAL, seconds)
+
+
+def _disarm():
+    import signal
+
+    signal.setitimer(signal.ITIMER_VIRTUAL, 0)
+
+
+HANG_S = 10.0       # CPU seconds; a parse costs ~0.5 ms
+
+
+def _where(e):
+    import traceback
+
+    tb = traceback.extract_tb(e.__traceback__)
+    frames = [t for t in tb if "/xonsh/" in t.filename] or list(tb)
+    return "%s:%s" % (os.path.basename(frames[-1].filename), frames[-1].name) if frames else "?"
+
+
+def analyse(parser, text, cursor, bound=HANG_S):
     """-> None when the oracle is satisfied, else (kind, detail)."""
     cc = _PB["cc"]
     try:
-        r = parser.parse(text, cursor)
+        _arm(bound)
+        try:
+            r = parser.parse(text, cursor)
+        finally:
+            _disarm()
     except (KeyboardInterrupt, SystemExit):
         raise
+    except _Hang as e:
+        where = _where(e)
+        for k in ("p", "p2"):
+            if _PB.get(k) is parser:
+                _PB.pop(k)           # its lexer generator was interrupted half-way
+        return "hang@%s" % where, "parse(%r, %d) did not return within %.0f CPU seconds (interrupted in %s)" % (text, cursor, bound, where)
     except BaseException as e:  # noqa: BLE001
-        import traceback
-
-        tb = traceback.extract_tb(e.__traceback__)
-        where = "%s:%s" % (os.path.basename(tb[-1].filename), tb[-1].name) if tb else "?"
+        where = _where(e)
         return "exception:%s@%s" % (type(e).__name__, where), "parse(%r, %d) raised %s: %s (in %s)" % (
             text, cursor, type(e).__name__, str(e)[:120], where)
     if r is None:
@@ -756,16 +798,15 @@ def analyse(parser, text, cursor):
         before, after = strip_cont(text[:cursor]), strip_cont(text[cursor:])
         want = strip_cont(c.opening_quote + c.prefix + (c.closing_quote if c.is_after_closing_quote else ""))
         suffix = strip_cont(c.suffix)
+        inside_cont = text[:cursor].endswith("\\") and text[cursor:cursor + 1] == "\n"
         if not before.endswith(want):
-            # a cursor between the backslash and the newline of a continuation: accept the reading in which
-            # the whole continuation is removed
-            alt = strip_cont(text[:cursor] + "\n") if text[:cursor].endswith("\\") and text[cursor:cursor + 1] == "\n" else None
-            if alt is None or not alt.endswith(want):
+            # a cursor between the backslash and the newline of a continuation: also accept the reading in
+            # which the whole continuation is removed
+            if not (inside_cont and strip_cont(text[:cursor] + "\n").endswith(want)):
                 return "prefix", "parse(%r, %d): text before the cursor %r does not end with opening_quote+prefix%s %r (%r)" % (
                     text, cursor, before, "+closing_quote" if c.is_after_closing_quote else "", want, c)
         if not after.startswith(suffix):
-            alt = strip_cont("\\" + text[cursor:]) if text[:cursor].endswith("\\") and text[cursor:cursor + 1] == "\n" else None
-            if alt is None or not alt.startswith(suffix):
+            if not (inside_cont and strip_cont("\\" + text[cursor:]).startswith(suffix)):
                 return "suffix", "parse(%r, %d): text after the cursor %r does not start with suffix %r (%r)" % (
                     text, cursor, after, c.suffix, c)
         if not (0 <= c.arg_index <= len(c.args)):
@@ -779,14 +820,33 @@ def analyse(parser, text, cursor):
     return None
 
 
+_FSTR_RE = re.compile(r"(?i)(?<![a-z0-9_])(?:[rbpu]*f[rbpu]*)('|\")")
+
+
+def _fstring_newline_shape(text):
+    """An f-prefixed string start with a newline (or \\r) somewhere after it (conservative)."""
+    m = _FSTR_RE.search(text)
+    return bool(m and re.search(r"[\r\n]", text[m.end():]))
+
+
 def _classify_b(text, cursor, kind, detail):
-    """C18-F5  text whose first token is a backslash-newline: AttributeError in lexer.handle_error_linecont
-       C18-F6  a word starting with a non-ASCII \\w character that cannot start an identifier (non-ASCII digit, superscript,
-               fraction ...): the lexer's 'Unexpected token' message becomes the prefix/suffix"""
+    """Narrow predicates of the recorded Part B findings, evaluated on the failing (text, cursor).
+
+    C18-F5  text whose first token is a backslash-newline: AttributeError in lexer.handle_error_linecont
+    C18-F6  a word starting with a non-ASCII \\w character that cannot start an identifier (non-ASCII digit,
+            superscript, fraction ...): the lexer's 'Unexpected token' message becomes the prefix/suffix
+    C18-F7  unterminated single-line f-string followed by a newline: the tolerant tokenizer loops for ever
+    C18-F8  cursor between the backslash and the newline of a continuation inside a word: the prefix takes one
+            character from behind the continuation
+    """
     if kind.startswith("exception:AttributeError@lexer.py:handle_error_linecont") and re.match(r"^[ \t\x0c]*\\\n", text):
         return "C18-F5"
     if kind in ("prefix", "suffix") and _LEXMSG in detail and _lexmsg_shape(text):
         return "C18-F6"
+    if kind == "hang@tokenize.py:_tokenize" and _fstring_newline_shape(text):
+        return "C18-F7"
+    if kind in ("prefix", "suffix") and cursor > 0 and text[cursor - 1:cursor + 1] == "\\\n":
+        return "C18-F8"
     return None
 
 
@@ -798,20 +858,37 @@ def _lexmsg_shape(text):
     return False
 
 
-def check_case_b(case):
-    """case = {'part':'B','text':..., 'cursor': int|None}  (None = every position).  -> Failure|None"""
+def check_case_b(case, tolerate=(), stats=None, bound=HANG_S):
+    """case = {'part':'B','text':..., 'cursor': int|None [, 'prev': text]}  (cursor None = every position).
+    Failures attributed to a finding listed in `tolerate` are counted in stats.excluded_known and skipped
+    (the model tolerates exactly that shape).  -> Failure|None"""
     text = case["text"]
     p = _parser()
+    if case.get("prev") is not None:
+        for cur in range(len(case["prev"]) + 1):
+            analyse(p, case["prev"], cur)
+        p = _parser()
     cursors = range(len(text) + 1) if case.get("cursor") is None else [case["cursor"]]
     for cur in cursors:
-        r = analyse(p, text, cur)
+        r = analyse(p, text, cur, bound=bound)
         if r is None:
             continue
         kind, detail = r
+        fid = _classify_b(text, cur, kind, detail)
+        if fid is not None and fid in tolerate:
+            if stats is not None:
+                stats.excluded_known[fid] += 1
+            p = _parser()
+            continue
         p2 = _parser(second=True)
         analyse(p2, "", 0)                       # bring the second instance into its rest state
-        r2 = analyse(p2, text, cur)
+        r2 = analyse(p2, text, cur, bound=2 * bound)
         if r2 is None:
+            if kind.startswith("hang@"):
+                if stats is not None:
+                    stats.inconclusive += 1      # not re-confirmed with the doubled bound
+                p = _parser()
+                continue
             _PB.pop("p", None)
             return Failure("state-leak:" + kind, {"part": "B", "text": text, "cursor": cur, "prev": _PB.get("prev")},
                            "reused parser only (previous input %r): %s" % (_PB.get("prev"), detail), bucket="state-leak:" + kind)
@@ -837,11 +914,10 @@ def text_strategy_b():
 
 
 def _b_excluded(text, open_ids):
+    """Shapes not generated at all while the finding is open (each costs the hang bound)."""
     out = set()
-    if "C18-F5" in open_ids and re.match(r"^[ \t\x0c]*\\\n", text):
-        out.add("C18-F5")
-    if "C18-F6" in open_ids and _lexmsg_shape(text):
-        out.add("C18-F6")
+    if "C18-F7" in open_ids and _fstring_newline_shape(text):
+        out.add("C18-F7")
     return out
 
 
@@ -860,7 +936,7 @@ def worker_b(arg):
             for fid in ex:
                 st.excluded_known[fid] += 1
             return
-        f = check_case_b({"part": "B", "text": text, "cursor": None})
+        f = check_case_b({"part": "B", "text": text, "cursor": None}, tolerate=open_ids, stats=st)
         nt = bool(_B_NONTRIV & set(text))
         labels = ["B"]
         for cls, chs in (("quote", "'\""), ("bracket", "()[]{}"), ("operator", "|&;<>"), ("continuation", None), ("dollar-at-bang", "$@!"),
@@ -881,27 +957,34 @@ def worker_b(arg):
 
     # n is a budget of (text, cursor) pairs; texts average ~14 positions
     common.run_given(text_strategy_b(), body, seed, max(50, n // 10))
-    st.failures = [_shrink_b(f) for f in _one_per_bucket(st.failures)]
+    st.failures = [_shrink_b(f, open_ids) for f in _one_per_bucket(st.failures)]
     return st
 
 
-def _shrink_b(f):
+def _shrink_b(f, open_ids=()):
     """Character-deletion reduction of the text (all cursor positions re-tried)."""
     text = f.case["text"]
     best = f
     t0 = time.time()
     progress = True
-    while progress and time.time() - t0 < 15:
+    hang = f.kind.startswith("hang@")
+    while progress and time.time() - t0 < (60 if hang else 15):
         progress = False
         for width in (4, 2, 1):
             for i in range(0, max(len(text) - width + 1, 0)):
                 t2 = text[:i] + text[i + width:]
-                g = check_case_b({"part": "B", "text": t2, "cursor": None})
+                if _b_excluded(t2, open_ids) and f.finding != "C18-F7":
+                    continue
+                g = check_case_b({"part": "B", "text": t2, "cursor": None}, tolerate=set(open_ids) - {f.finding},
+                                 bound=1.0 if hang else HANG_S)
                 if g is not None and g.bucket == f.bucket:
                     text, best, progress = t2, g, True
                     break
             if progress:
                 break
+    if hang and best is not f:
+        g = check_case_b(dict(best.case), tolerate=set(open_ids) - {f.finding})
+        best = g if (g is not None and g.bucket == f.bucket) else f
     return best
 
 
@@ -936,7 +1019,7 @@ def one(data):
         for e in ex:
             stats["excluded"][e] = stats["excluded"].get(e, 0) + 1
         return
-    f = chk.check_case_b({"part": "B", "text": text, "cursor": None})
+    f = chk.check_case_b({"part": "B", "text": text, "cursor": None}, tolerate=open_ids)
     if f is not None:
         b = found.get(f.bucket)
         if b is None or len(b["case"]["text"]) > len(text):
@@ -1001,9 +1084,9 @@ def run_atheris(run, nproc, seconds):
     _parser()
     out_f = []
     for fj in fails:
-        g = check_case_b({"part": "B", "text": fj["case"]["text"], "cursor": None})
+        g = check_case_b({"part": "B", "text": fj["case"]["text"], "cursor": None}, tolerate=set(open_ids))
         if g is not None:
-            out_f.append(_shrink_b(g))
+            out_f.append(_shrink_b(g, set(open_ids)))
     for k, v in excluded.items():
         run.stats.excluded_known[k] += v
     return out_f, runs, "atheris: %d processes x %d s, %d executions (each = every cursor position of one text)" % (nproc, seconds, runs)
